@@ -1,7 +1,109 @@
 import Hs.Model.Vx
+import Hs.Model.Kinds
 namespace Hs.Drv.C19
+open Hs Hs.Vx Hs.Kinds Hs.Gen
+
+def str (cs : List Char) : String := String.ofList cs
+
+def bit (b : Bool) : String := if b then "1" else "0"
+
+/-- `name=bit` items sorted by name (the harness sorts its items the same way) -/
+def items (l : List (String × String)) : String :=
+  let sorted := l.mergeSort fun a b => decide (a.1 ≤ b.1)
+  " ".intercalate (sorted.map fun (n, b) => n ++ "=" ++ b)
+
+def HO' (o : Option (List Char)) : String := HO o
+
+/-- `preds V` → every variant test, then the kind of the value: code, variant, name, Display -/
+def predsReq (ts : List String) : String :=
+  match pVal ts with
+  | none => "bad-request"
+  | some (v, _) =>
+    let ps := ValueShape.preds.map fun p => (str p.1, bit (matchesVariant p.2 v))
+    let k := kindOfVal v
+    let code := match k.bind kindCode with
+      | some n => toString n
+      | none => "-"
+    s!"ok {items ps} K {code} {HO' k} {HO' (k.bind kindName)} {HO' (k.bind kindDisplay)}"
+
+/-- `conv V` → which `T::try_from(&V)` succeed -/
+def convReq (ts : List String) : String :=
+  match pVal ts with
+  | none => "bad-request"
+  | some (v, _) =>
+    let cs := Accessors.tryFroms.map fun e => (str e.1, bit ((tryFromOk e.1 v).getD false))
+    s!"ok {items cs}"
+
+/-- `get H(key) {dict}` → which typed getters answer for `key` -/
+def getReq (ts : List String) : String :=
+  match pH ts with
+  | none => "bad-request"
+  | some (key, ts) =>
+    match pTags ts with
+    | none => "bad-request"
+    | some (d, _) =>
+      let gs := Accessors.getters.map fun e => (str e.1, bit ((getterOk e.1 d key).getD false))
+      let ks := Accessors.keyedGetters.map fun e => (str e.1, bit ((getterOk e.2.1 d e.2.2).getD false))
+      s!"ok {items gs} | {items ks}"
+
+/-- `code N` → `ok H(variant) H(name) H(display)` | `err` -/
+def codeReq (ts : List String) : String :=
+  match pNat ts with
+  | none => "bad-request"
+  | some (n, _) =>
+    match kindOfCode n with
+    | none => "err"
+    | some k => s!"ok {H k} {HO' (kindName k)} {HO' (kindDisplay k)}"
+
+/-- `name H(s)` → `ok H(variant) code` | `err` -/
+def nameReq (ts : List String) : String :=
+  match pH ts with
+  | none => "bad-request"
+  | some (s, _) =>
+    match kindOfName s with
+    | none => "err"
+    | some k =>
+      let code := match kindCode k with
+        | some n => toString n
+        | none => "-"
+      s!"ok {H k} {code}"
+
+/-- `kinds` → the declared kinds with their codes, sorted by variant name -/
+def kindsReq : String :=
+  "ok " ++ items (Kinds.kinds.map fun (k, n) => (str k, toString n))
+
+def rowsOf : Vals → Option (List Tags)
+  | .nil => some []
+  | .cons (.dict d) rest => (rowsOf rest).map (d :: ·)
+  | .cons _ _ => none
+
+/-- `grid -|{meta} [ k {row}…` → `ok <VX of the grid>` -/
+def gridReq (ts : List String) : String :=
+  match pOptTags ts with
+  | none => "bad-request"
+  | some (md, ts) =>
+    match pVal ts with
+    | some (.list xs, _) =>
+      match rowsOf xs with
+      | none => "bad-request"
+      | some rows =>
+        match md with
+        | .none => "ok " ++ showVal (makeFromDicts rows)
+        | .some m => "ok " ++ showVal (makeFromDictsWithMeta rows m)
+    | _ => "bad-request"
 
 /-- requests `C19 <cmd> ...` (tokens after the property id) -/
-def handle (_ts : List String) : String := "bad-request"
+def handle (ts : List String) : String :=
+  match ts with
+  | cmd :: rest =>
+    if cmd = "preds" then predsReq rest
+    else if cmd = "conv" then convReq rest
+    else if cmd = "get" then getReq rest
+    else if cmd = "code" then codeReq rest
+    else if cmd = "name" then nameReq rest
+    else if cmd = "kinds" then kindsReq
+    else if cmd = "grid" then gridReq rest
+    else "bad-request"
+  | [] => "bad-request"
 
 end Hs.Drv.C19
